@@ -72,6 +72,21 @@ def random_perm(inst, rng: random.Random, signs: str = "random") -> list:
     return base
 
 
+def result_record(inst, rows: list, nb: int):
+    """The PackingResult that the library derives for a packing (from_packing_and_end_result with every optional
+    argument left at its default, as a caller evaluating packings one after the other would do).  The instance
+    names of the drivers repeat on purpose: whatever the function remembers between calls must not leak from
+    one instance into the record of another."""
+    from moptipy.evaluation.end_results import EndResult
+    from moptipyapps.binpacking2d import packing_result as pr
+    from moptipyapps.binpacking2d.objectives.bin_count import BIN_COUNT_NAME
+    y = _mods()["Packing"](inst)
+    y[:, :] = np.array(rows, dtype=np.int64).reshape(y.shape)
+    y.n_bins = int(nb)
+    er = EndResult("a", inst.name, BIN_COUNT_NAME, None, 1, int(nb), 1, 0, 1, 0, None, None, None)
+    return pr.from_packing_and_end_result(er, y)
+
+
 def rows_of(y) -> list:
     return [[small(v) for v in row] for row in np.asarray(y).tolist()]
 
